@@ -183,9 +183,13 @@ fn hex_text(d: &[u8], style: usize) -> String {
     }
 }
 
-fn judge_mux(c: &MuxCase, dir: &Path, k: usize, order: (u64, u64), t: &mut Tally, produced: &mut Vec<PathBuf>) {
-    let (vdata, _) = video_frame(c.codec, true, true, 1, 9);
-    let adata = c.audio.map(|(_, a, _, _)| audio_frame(a, 1, 7).0);
+fn judge_mux(c: &MuxCase, dir: &Path, k: usize, global: (usize, bool), order: (u64, u64), t: &mut Tally, produced: &mut Vec<PathBuf>) {
+    // frame sizes cycle independently of the pre-existing output state: 9 bytes, 5000 bytes
+    // (hex text beyond 8 KiB), 70000 bytes (beyond 64 KiB)
+    let vlen = [9usize, 5000, 70_000][(k / 3) % 3];
+    let alen = [7usize, 4500][(k / 9) % 2];
+    let (vdata, _) = video_frame(c.codec, true, true, 1, vlen);
+    let adata = c.audio.map(|(_, a, _, _)| audio_frame(a, 1, alen).0);
     let vpath = dir.join(format!("v{k}.hex"));
     let apath = dir.join(format!("a{k}.hex"));
     let opath = dir.join(format!("o{k}.mp4"));
@@ -221,7 +225,7 @@ fn judge_mux(c: &MuxCase, dir: &Path, k: usize, order: (u64, u64), t: &mut Tally
         args.extend(["--language".to_string(), l.to_string()]);
     }
     t.evaluations += 1;
-    let case = || json!({"engine": "E6-mux", "args": args, "video_hex": hex(&vdata), "audio_hex": adata.as_ref().map(|a| hex(a)), "preexisting_output_bytes": pre});
+    let case = || json!({"engine": "E6-mux", "args": args, "video_hex": hex(&vdata), "audio_hex": adata.as_ref().map(|a| hex(a)), "preexisting_output_bytes": pre, "mux_index": global.0, "thorough": global.1, "k": k});
     let o = match spawn(&args, Duration::from_secs(10)) {
         Ok(o) => o,
         Err(e) => {
@@ -535,7 +539,7 @@ pub fn check(ctx: &Ctx) -> i32 {
             Item::Mux(cs) => {
                 let mut produced = vec![];
                 for (k, c) in cs.iter().enumerate() {
-                    judge_mux(c, &dir, k, (idx as u64, k as u64), t, &mut produced);
+                    judge_mux(c, &dir, k, (idx * 40 + k, ctx.thorough), (idx as u64, k as u64), t, &mut produced);
                 }
                 // info on every well-formed file the mux runs produced
                 for (k, p) in produced.iter().enumerate() {
@@ -575,7 +579,7 @@ pub fn check(ctx: &Ctx) -> i32 {
         &tally,
         Meta {
             level: "exploration",
-            rule: format!("the built muxide binary is spawned for: {n_mux} valid mux option combinations ({}) - exit 0, output file (absent, 10 bytes or 70000 bytes of other content beforehand, cycling) byte-equal to an in-process library run with the same settings and the single frame at t=0, reported frame counts; ~90 single invalid deviations from a valid command (missing/unknown/out-of-range options, eight kinds of bad input file for video and audio, --fragmented, wrong codec for the data) - exit != 0 and no completion message; validate: 10 x 10 input kinds (absent, missing, empty, whitespace, valid, odd, bad char, non-ASCII, binary) x {{--json, -o file}} - verdict valid iff every given input exists and is non-empty even-length hex; info: {n_info} files of <= {} boxes with size fields over {{0, 1, 7, 8, 9, exact, exact+1, 2^32-1}} x ASCII / non-UTF-8 types, files shorter than 8 bytes (termination within 5 s), and every well-formed file produced by the mux runs (box list equals the reader's top-level walk). Distinct by output file / verdict.", if ctx.thorough { "full product of 10 codec spellings x 3 dimensions x 3 frame rates x 28 audio options x 5 titles (incl. surrounding whitespace and empty) x 2 languages x 4 output modes" } else { "every (codec spelling, audio option) pair with the other factors cycling, plus the full product of dimensions x fps x title x language x output mode" }, if ctx.thorough { 3 } else { 2 }),
+            rule: format!("the built muxide binary is spawned for: {n_mux} valid mux option combinations ({}) - exit 0, output file (absent, 10 bytes or 70000 bytes of other content beforehand, cycling) byte-equal to an in-process library run with the same settings and the single frame at t=0 (video frames of 9 / 5000 / 70000 bytes, audio frames of 7 / 4500 bytes, cycling), reported frame counts; ~90 single invalid deviations from a valid command (missing/unknown/out-of-range options, eight kinds of bad input file for video and audio, --fragmented, wrong codec for the data) - exit != 0 and no completion message; validate: 10 x 10 input kinds (absent, missing, empty, whitespace, valid, odd, bad char, non-ASCII, binary) x {{--json, -o file}} - verdict valid iff every given input exists and is non-empty even-length hex; info: {n_info} files of <= {} boxes with size fields over {{0, 1, 7, 8, 9, exact, exact+1, 2^32-1}} x ASCII / non-UTF-8 types, files shorter than 8 bytes (termination within 5 s), and every well-formed file produced by the mux runs (box list equals the reader's top-level walk). Distinct by output file / verdict.", if ctx.thorough { "full product of 10 codec spellings x 3 dimensions x 3 frame rates x 28 audio options x 5 titles (incl. surrounding whitespace and empty) x 2 languages x 4 output modes" } else { "every (codec spelling, audio option) pair with the other factors cycling, plus the full product of dimensions x fps x title x language x output mode" }, if ctx.thorough { 3 } else { 2 }),
             bound: "option domains as listed".into(),
             exhaustive: true,
             assumptions: vec!["validate with no inputs, mux --dry-run and --creation-time (documented as unimplemented) are outside the statement and not judged".into(), "the binary under test is built from /repo's working tree into /verif/target/cli by ./check".into()],
@@ -585,17 +589,44 @@ pub fn check(ctx: &Ctx) -> i32 {
 }
 
 pub fn replay(case: &Value) -> i32 {
-    let args: Vec<String> = serde_json::from_value(case["args"].clone()).unwrap_or_default();
-    println!("re-running: muxide {}", args.join(" "));
-    println!("(input files of the original run were temporary; re-run ./check C20 quick to regenerate them)");
-    match spawn(&args, Duration::from_secs(10)) {
-        Ok(o) => {
-            println!("exit {:?}\nstdout: {}\nstderr: {}", o.code, o.stdout, o.stderr);
-            1
+    let mut t = Tally::default();
+    let dir = workdir(999_999);
+    match case["engine"].as_str() {
+        Some("E6-mux") if case["mux_index"].is_u64() => {
+            let cases = mux_cases(case["thorough"].as_bool().unwrap_or(false));
+            let Some(c) = cases.get(case["mux_index"].as_u64().unwrap() as usize) else { return 2 };
+            let mut produced = vec![];
+            println!("re-running mux case #{} (inputs regenerated; output path pre-filled with {} bytes)", case["mux_index"], case["preexisting_output_bytes"]);
+            judge_mux(c, &dir, case["k"].as_u64().unwrap_or(0) as usize, (0, false), (0, 0), &mut t, &mut produced);
         }
-        Err(e) => {
-            println!("{e}");
-            2
+        Some("E6-info") if case["file_hex"].as_str().map(|h| h.len() < 400).unwrap_or(false) => {
+            let bytes = oracle::model::unhex(case["file_hex"].as_str().unwrap()).unwrap_or_default();
+            judge_info(&dir, case["name"].as_str().unwrap_or("replay"), &bytes, case["well_formed"].as_bool().unwrap_or(false), 0, (0, 0), &mut t);
         }
+        _ => {
+            let args: Vec<String> = serde_json::from_value(case["args"].clone()).unwrap_or_default();
+            println!("re-running: muxide {}", args.join(" "));
+            println!("(input files of the original run were temporary; re-run ./check C20 quick to regenerate them)");
+            return match spawn(&args, Duration::from_secs(10)) {
+                Ok(o) => {
+                    println!("exit {:?}\nstdout: {}\nstderr: {}", o.code, o.stdout, o.stderr);
+                    1
+                }
+                Err(e) => {
+                    println!("{e}");
+                    2
+                }
+            };
+        }
+    }
+    let _ = std::fs::remove_dir_all(&dir);
+    if t.viol.is_empty() {
+        println!("replay: property C20 holds for this case");
+        0
+    } else {
+        for (s, f) in &t.viol {
+            println!("replay: VIOLATION {s}: {}", f.detail);
+        }
+        1
     }
 }
